@@ -132,10 +132,23 @@ def pendingBumps (cvm : List (Nat Ã— Graph Bumps)) : Bumps â†’ Except Err Bumps
 def relevantComps (comps : List (Nat Ã— Graph Bumps)) : List (Nat Ã— Graph Bumps) :=
   comps.filter (fun cg => !cg.2.bnMapAll.isEmpty)
 
+/-- `_get_relevant_cmpnts_names` : the candidates whose cut-off time (`min_rbuild_timestamp` of the component minus
+`_CHECK_COMPONENTS_CUTOFF_PERIOD`) lies before the commit time.  (A component with a non-empty `bn_map` has a
+`min_rbuild_timestamp`; `analyseAll` raises the code's `TypeError` otherwise, so the `none` cases are not reached.) -/
+def stillRelevant (cvm : List (Nat Ã— Graph Bumps)) (time : Nat) (cands : List Nat) : List Nat :=
+  cands.filter fun comp =>
+    match cvm.lookup comp with
+    | none => false
+    | some g =>
+      match g.minTs with
+      | none => false
+      | some m => decide (m < time + Gen.Ghist.componentsCutoff)
+
 def mkPlug (comps : List (Nat Ã— Graph Bumps)) : Plug Pins Bumps :=
   let cvm := sortBy (fun a b => a.1 < b.1) (relevantComps comps)
-  { rel := !cvm.isEmpty
-    mkBumps := mkBumps cvm
+  { relInit := cvm.map (Â·.1)
+    relStep := stillRelevant cvm
+    mkBumps := fun rel => mkBumps (cvm.filter fun cg => rel.contains cg.1)
     nonTrivial := fun bs => bs.any (fun cb => !cb.2.trivial)
     pending := pendingBumps cvm
     noBumps := []
@@ -258,6 +271,8 @@ def analyseAll (repos : List RepoIn) : List Nat â†’ List Analysed â†’ List Reg â
     | none => .error .keyError
     | some r =>
       let comps := (acc.filter fun a => r.deps.contains a.id).map fun a => (a.id, a.graph)
+      if (relevantComps comps).any (fun cg => cg.2.minTs.isNone) then .error .typeError   -- `None - int`
+      else
       match rgraph r.hist (mkPlug comps) with
       | .error e => .error e
       | .ok g =>
